@@ -25,6 +25,9 @@ type Builder struct {
 	notes    map[string]bool // abstraction notes (unsupported constructs)
 	termMode int             // >0: define() returns the term itself (evaluation under a quantifier)
 	freshInTermMode int
+	defOf    map[string]int  // defined constant -> index of its defining assertion
+	symCache map[int][]string
+	NoSlice  bool
 }
 
 func NewBuilder(ev *EventTable) *Builder {
@@ -93,7 +96,83 @@ func (b *Builder) define(prefix, sort, term string) string {
 	}
 	c := b.declConst(b.fresh(prefix), sort)
 	b.assert(fmt.Sprintf("(= %s %s)", c, term))
+	if b.defOf == nil {
+		b.defOf = map[string]int{}
+	}
+	b.defOf[c] = len(b.asserts) - 1
 	return c
+}
+
+// symbols extracts the identifiers occurring in an SMT term.
+func symbols(t string) []string {
+	var out []string
+	i := 0
+	for i < len(t) {
+		c := t[i]
+		switch {
+		case c == '|':
+			j := strings.IndexByte(t[i+1:], '|')
+			if j < 0 {
+				return out
+			}
+			out = append(out, t[i:i+j+2])
+			i += j + 2
+		case c == '(' || c == ')' || c == ' ' || c == '\n' || c == '\t':
+			i++
+		default:
+			j := i
+			for j < len(t) && t[j] != '(' && t[j] != ')' && t[j] != ' ' && t[j] != '|' && t[j] != '\n' {
+				j++
+			}
+			out = append(out, t[i:j])
+			i = j
+		}
+	}
+	return out
+}
+
+// slice returns the indices of the assertions in the cone of influence of the given terms:
+// definitions of every constant reachable from them, plus all non-definitional assertions.
+func (b *Builder) slice(extra []string) []bool {
+	keep := make([]bool, len(b.asserts))
+	if b.NoSlice || b.defOf == nil {
+		for i := range keep {
+			keep[i] = true
+		}
+		return keep
+	}
+	isDef := make([]bool, len(b.asserts))
+	for _, idx := range b.defOf {
+		isDef[idx] = true
+	}
+	seen := map[string]bool{}
+	var work []string
+	push := func(t string) {
+		for _, s := range symbols(t) {
+			if !seen[s] {
+				seen[s] = true
+				work = append(work, s)
+			}
+		}
+	}
+	for _, e := range extra {
+		push(e)
+	}
+	for i, a := range b.asserts {
+		if !isDef[i] {
+			keep[i] = true
+			push(a)
+		}
+	}
+	for len(work) > 0 {
+		s := work[len(work)-1]
+		work = work[:len(work)-1]
+		if idx, ok := b.defOf[s]; ok && !keep[idx] {
+			keep[idx] = true
+			push(b.asserts[idx])
+		}
+	}
+	return keep
 }
 
 func (b *Builder) strLit(s string) string {
@@ -304,7 +383,11 @@ func (b *Builder) Script(extra []string, wantModel bool) string {
 	sb.WriteString("; --asserts--\n")
 	seen := map[string]bool{}
 	var ground []string
-	for _, a := range b.asserts {
+	keep := b.slice(extra)
+	for i, a := range b.asserts {
+		if !keep[i] {
+			continue
+		}
 		sb.WriteString("(assert ")
 		sb.WriteString(a)
 		sb.WriteString(")\n")
@@ -579,12 +662,12 @@ func (e *EventTable) Decl() string {
 	for _, n := range e.names {
 		var fs []string
 		for i, s := range e.args[n] {
-			fs = append(fs, fmt.Sprintf("(%s %s)", q(fmt.Sprintf("ev:%s.%d", n, i)), s))
+			fs = append(fs, fmt.Sprintf("(%s %s)", fmt.Sprintf("ev_%s_%d", n, i), s))
 		}
 		if len(fs) == 0 {
-			ctors = append(ctors, "("+q("ev:"+n)+")")
+			ctors = append(ctors, "("+"ev_"+n+")")
 		} else {
-			ctors = append(ctors, "("+q("ev:"+n)+" "+strings.Join(fs, " ")+")")
+			ctors = append(ctors, "("+"ev_"+n+" "+strings.Join(fs, " ")+")")
 		}
 	}
 	ctors = append(ctors, "(ev_none)")
